@@ -277,6 +277,24 @@ func blackBox(c *vf.Ctx) {
 	wg.Wait()
 }
 
+// bbWrite posts one batch. Right after a measurement is created the store may answer
+// "shard group not found" (the shard group exists in the catalogue, not yet in the store);
+// nothing was written then, so the batch is sent again (bounded). Any other refusal is final:
+// column-store rows are append-only and a blind retry could duplicate them (the row count is
+// verified before the first query in any case).
+func bbWrite(c *vf.Ctx, s *proc.Server, body string) proc.WriteResult {
+	var wr proc.WriteResult
+	for try := 0; try < 40; try++ {
+		wr = s.Write(bbDB, body, nil)
+		if wr.Acked() || wr.Err != nil || !strings.Contains(wr.Body, "shard group not found") {
+			return wr
+		}
+		c.Count("black-box/writes-repeated-after-shard-group-not-found", 1)
+		time.Sleep(250 * time.Millisecond)
+	}
+	return wr
+}
+
 func bbStart(c *vf.Ctx, bin string, w int, name string) *proc.Server {
 	dir := filepath.Join(c.Scratch, name)
 	s := proc.New(proc.Config{Bin: bin, Dir: dir, IP: proc.IP(20, w)})
@@ -316,7 +334,7 @@ func bbServer(c *vf.Ctx, bin string, w int) {
 	// two flushes => two files (two primary indexes, two sets of bloom filters) per measurement
 	for part, rg := range [][2]int{{0, n * 3 / 5}, {n * 3 / 5, n}} {
 		for _, v := range variants {
-			wr := s.Write(bbDB, bbLines(&t, v.name, rg[0], rg[1]), nil)
+			wr := bbWrite(c, s, bbLines(&t, v.name, rg[0], rg[1]))
 			if !wr.Acked() {
 				c.Broken("black-box: write to %s part %d not acknowledged: %d %s %v", v.name, part, wr.Status, wr.Body, wr.Err)
 				return
@@ -589,7 +607,7 @@ func bbMinMax(c *vf.Ctx, bin string) {
 	}
 	r := c.Rand(5999)
 	t := bbTable(r, 200)
-	if wr := s.Write(bbDB, bbLines(&t, "mm", 0, 200), nil); !wr.Acked() {
+	if wr := bbWrite(c, s, bbLines(&t, "mm", 0, 200)); !wr.Acked() {
 		c.Inconclusive("category-not-reached:minmax-index(write-refused)", 1)
 		return
 	}
